@@ -204,14 +204,20 @@ def apply_boundary(x, lb, ub, btype: int):
         return x, True
     if btype == 2:  # TRUNCATE_BOTH
         return min(max(x, lb), ub), True
-    # MIRROR_BOTH
-    if x < lb:
-        y = 2 * lb - x
-        return (y, True) if y <= ub else (None, False)
-    if x > ub:
-        y = 2 * ub - x
-        return (y, True) if y >= lb else (None, False)
-    return x, True
+    # MIRROR_BOTH: reflected at the violated bound, again at the other bound if the image violates that
+    # one, ... ("repeat the mirroring a few times"): exact for up to 4 reflections, beyond that only
+    # containment is promised
+    y = x
+    for _ in range(4):
+        if y < lb:
+            y = 2 * lb - y
+        elif y > ub:
+            y = 2 * ub - y
+        else:
+            return y, True
+    if lb <= y <= ub:
+        return y, True
+    return None, False
 
 
 def violation(value, lb, ub):
